@@ -6,7 +6,8 @@ use serde_json::json;
 pub fn main(args: &[String]) -> i32 {
     let c = Common::parse(args);
     c.run(|idx, case| {
-        let fl = Fl::from_json(&case["fl"]);
+        let mut fl = Fl::from_json(&case["fl"]);
+        fl.sp = case.get("sp").and_then(|v| v.as_u64()).unwrap_or(0) as u8;
         json!({"rid": idx, "p": ast::render_pattern(&case["ast"], fl), "flags": fl.as_string()})
     })
 }
